@@ -43,7 +43,12 @@ func (s *Session) Do(op Op) Step {
 	st := s.W.Exec(op)
 	s.Src = append(s.Src, op.JSON())
 	s.Steps = append(s.Steps, st)
-	s.add(st.Line, st.Impl, len(s.Src)-1)
+	if st.Line != "" {
+		ls, is := strings.Split(st.Line, "\n"), strings.Split(st.Impl, "\n")
+		for i := range ls {
+			s.add(ls[i], is[i], len(s.Src)-1)
+		}
+	}
 	s.add("dump", s.W.Dump(), len(s.Src)-1)
 	return st
 }
